@@ -73,7 +73,8 @@ var numLits = []string{
 	"0.1s0", "2.5s0", "-1.5s3", "1.5L0", "-0.25L0", "1.0d0", "6.02d23",
 }
 
-var charLits = []string{`#\a`, `#\Z`, `#\0`, `#\Space`, `#\(`, `#\;`, `#\"`, `#\λ`, `#\Newline`}
+// #\; #\( #\" are not accepted by the reader (C02's concern)
+var charLits = []string{`#\a`, `#\Z`, `#\0`, `#\Space`, `#\-`, `#\*`, `#\λ`, `#\Newline`}
 
 // genAtom yields a clean atom: a number, string, keyword, t, nil or character.
 func genAtom(r *rand.Rand) string {
@@ -217,6 +218,9 @@ func genValue(r *rand.Rand, kind, feat string) string {
 		for i := range dims {
 			dims[i] = 1 + r.IntN(3)
 		}
+		if feat == "plain-attrs" {
+			return fmt.Sprintf("#%dA%s", rank, nestedContents(r, dims))
+		}
 		src := fmt.Sprintf("(make-array '%s :initial-contents '%s", intList(dims), nestedContents(r, dims))
 		if r.IntN(3) == 0 && feat != "plain-attrs" {
 			src += " :adjustable t"
@@ -224,6 +228,11 @@ func genValue(r *rand.Rand, kind, feat string) string {
 		return src + ")"
 	case "hash-table":
 		n := r.IntN(7)
+		if feat == "plain-attrs" {
+			// the order of the entries in a load form is the map's iteration
+			// order: a table with several entries has no stable text
+			n = r.IntN(2)
+		}
 		var b strings.Builder
 		b.WriteString("(let ((h (make-hash-table)))")
 		seen := map[string]bool{}
